@@ -83,7 +83,9 @@ pub fn prefilter_patterns(rng: &mut Rng) -> (Vec<Vec<u8>>, bool) {
         }
         7 => {
             // a long pattern (>= 256 bytes) must switch the rare-byte prefilter off
-            let n = rng.range(250, 300);
+            // total length n+1: half of the time right on the 255/256 limit of
+            // the rare-byte offset table
+            let n = if rng.chance(1, 2) { *rng.pick(&[252usize, 253, 254, 255, 256, 257]) } else { rng.range(250, 300) };
             let mut p = gen::rand_string(rng, common, n);
             p.push(b'z');
             pats.push(p);
